@@ -107,6 +107,11 @@ func (w *Walker) Walk(
 	w.allCancel = cancelFunc
 
 	// populate info map
+	// All nodes must be registered before the first routine is started: a node that
+	// completes looks its dependants up in nodeInfoMap, so a dependant that is not
+	// registered yet would never receive its ready message (and the unsynchronised
+	// map write would race with that lookup).
+	infos := make(map[label.TargetLabel]*nodeInfo)
 	for _, node := range w.graph.nodes {
 		if !node.GetIsSelected() {
 			// skip unselected targets
@@ -117,15 +122,27 @@ func (w *Walker) Walk(
 		readyCh := make(chan interface{}, 1)
 		cancelCh := make(chan interface{}, 1)
 
-		w.nodeInfoMap[node.GetLabel()] = &nodeInfo{
+		infos[node.GetLabel()] = &nodeInfo{
 			done:   doneCh,
 			ready:  readyCh,
 			cancel: cancelCh,
 		}
+	}
+	w.nodeMutex.Lock()
+	for nodeLabel, info := range infos {
+		w.nodeInfoMap[nodeLabel] = info
+	}
+	w.nodeMutex.Unlock()
+
+	for _, node := range w.graph.nodes {
+		info, ok := infos[node.GetLabel()]
+		if !ok {
+			continue
+		}
 
 		w.wait.Add(1)
 		// start all routines
-		go w.nodeRoutine(ctx, node, w.nodeInfoMap[node.GetLabel()])
+		go w.nodeRoutine(ctx, node, info)
 
 		// start all routines with no dependencies immediately
 		if len(w.graph.inEdges[node.GetLabel()]) == 0 {
@@ -149,10 +166,18 @@ func (w *Walker) Walk(
 		)
 		w.cancelAll()
 
+		// Node routines may still be recording completions: hand out a copy
+		// taken under the mutex that protects the map.
+		w.doneMutex.Lock()
+		defer w.doneMutex.Unlock()
+		completions := make(CompletionMap, len(w.completions))
+		for completionLabel, completion := range w.completions {
+			completions[completionLabel] = completion
+		}
 		if w.failFastTriggered {
-			return w.completions, nil
+			return completions, nil
 		} else {
-			return w.completions, ctx.Err()
+			return completions, ctx.Err()
 		}
 	}
 }
